@@ -802,6 +802,54 @@ def stage_generated(ctx):
     finish_batch(ctx, "C12", exprs, metas)
 
 
+def stage_buffer(ctx):
+    """the SAME list / array object handed to lnprior / lnlike / lnposterior / forward again after its entries were
+    changed in place (what an optimiser or sampler does): every call has to use the current values, i.e. give what a
+    freshly built model gives for a fresh list of those values"""
+    import numpy as np
+    rng = ctx.subrng("buffer")
+
+    def quad(model, data, pars):
+        out = [call(lambda: float(model.lnprior(pars))), call(lambda: float(model.lnlike(pars, data))),
+               call(lambda: float(model.lnposterior(pars, data)))]
+        f = call(lambda: np.asarray(model.forward(pars, data).values, dtype=float).ravel().tolist())
+        return out + [f]
+    done = 0
+    for k in range(ctx.n(60, 400)):
+        if done >= ctx.n(14, 80):
+            break
+        d = gen_case(rng, "exact" if k % 3 else "alpha")
+        if d.get("fail") is not None or d.get("pixels") is not None:
+            continue
+        with warnings.catch_warnings():
+            warnings.simplefilter("ignore")
+            b = build(d)
+            model, data, pars = b["model"], b["data"], b["pars"]
+            if not isinstance(pars, (list, tuple)) or not len(pars):
+                continue
+            done += 1
+            for mk in (list, lambda v: np.array(v, dtype=float)):
+                buf = mk([float(x) for x in pars])
+                quad(model, data, buf)
+                for step in range(2):
+                    for i in range(len(buf)):
+                        buf[i] = buf[i] * (1.0 + 0.004 * (i + 1) * (1 if step == 0 else -2))
+                    cur = [float(x) for x in buf]
+                    got = quad(model, data, buf)
+                    ref = quad(build(d)["model"], data, list(cur))
+                    ctx.explored += 1
+                    ctx.count("buffer:%s" % d["kind"])
+                    ctx.nontriv(("buffer", d["kind"], len(cur), step))
+                    if repr(got) != repr(ref):
+                        which = [nm for nm, a, b_ in zip(("lnprior", "lnlike", "lnposterior", "forward"), got, ref) if repr(a) != repr(b_)]
+                        ctx.violation("buffer-reuse:%s" % d["kind"], "a model called again with the same list / array object after its "
+                                      "entries were changed in place does not use the current values (differs from a freshly built "
+                                      "model on a fresh list in: %s)" % ", ".join(which),
+                                      dict(kind="buffer", case=d, values=cur, differs=which,
+                                           got=[g if i < 3 else None for i, g in enumerate(got)],
+                                           ref=[g if i < 3 else None for i, g in enumerate(ref)]))
+
+
 def stage_fixed(ctx):
     """hand-written boundary cases: each clause of the precedence tables, exact support bounds, the
     LimitOverlaps boundary, r = 0, empty prior list, all-uniform None-noise rule"""
@@ -922,12 +970,20 @@ def stage_channels(ctx):
     for k in range(ctx.n(9, 60)):
         source = ["data", "model", "model-prior"][k % 3]
         shape = rng.choice([(3, 4), (4, 3), (2, 5)])
-        chans = ["red", "green"]
-        wl = {"red": 0.66, "green": rng.choice([0.52, 0.405])}
-        pol = {"red": (1, 0), "green": rng.choice([(0, 1), (1, 0)])}
-        nz = {"red": rng.uniform(0.02, 0.2), "green": rng.uniform(0.02, 0.2)}
+        # the image's illumination coordinate and each dictionary list the channel labels in their OWN order
+        # (neither sorted nor equal to one another in general)
+        chans = rng.sample(["red", "green", "blue"], rng.choice([2, 2, 3]))
+
+        def in_order(dct):
+            ks = list(dct)
+            rng.shuffle(ks)
+            return {c: dct[c] for c in ks}
+        wl = in_order({c: v for c, v in zip(chans, [0.66, rng.choice([0.52, 0.405]), 0.45])})
+        pol = in_order({c: v for c, v in zip(chans, [(1, 0), rng.choice([(0, 1), (1, 0)]), (0, 1)])})
+        nz = in_order({c: rng.uniform(0.02, 0.2) for c in chans})
         rv, av = rng.uniform(0.4, 0.7), rng.uniform(0.6, 0.95)
-        case = dict(kind="channels", source=source, shape=list(shape), wavelen=wl, pol=pol, noise=nz, r=rv, alpha=av, index=k)
+        case = dict(kind="channels", source=source, shape=list(shape), wavelen=wl, pol=pol, noise=nz, r=rv, alpha=av, index=k,
+                    detector_channels=list(chans))
         det = detector_grid(shape=shape, spacing=0.25, extra_dims={"illumination": chans})
         truth = Sphere(n=1.5, r=0.5, center=(0.5, 0.5, 8.0))
         data = calc_holo(det, truth, 1.33, wl, pol)
@@ -946,10 +1002,10 @@ def stage_channels(ctx):
                 mnoise = dict(nz)
             else:
                 pr_n = prior.Uniform(0.01, 0.25)
-                mnoise = {"red": nz["red"], "green": pr_n}
+                mnoise = {c: (pr_n if c == chans[1] else nz[c]) for c in nz}
             model = AlphaModel(sp, alpha=pr_a, noise_sd=mnoise, medium_index=1.33, illum_wavelen=wl, illum_polarization=pol)
             if source == "model-prior":
-                pars = [rv, nz["green"], av]      # scatterer, optics (noise), model (alpha)
+                pars = [rv, nz[chans[1]], av]      # scatterer, optics (noise), model (alpha)
             ctx.explored += 1
             ctx.count("channels:noise-from-" + source)
             lp = float(model.lnprior(pars))
@@ -964,9 +1020,13 @@ def stage_channels(ctx):
                               dict(kind="channels", case=case, error=type(ex).__name__))
                 continue
             f = calc_holo(data, Sphere(n=1.5, r=rv, center=(0.5, 0.5, 8.0)), 1.33, wl, pol, scaling=av)
-        f = f.transpose(*data.dims)
-        sig = xr.DataArray([nz[c] for c in chans], dims="illumination", coords={"illumination": chans})
+        # channels are matched by LABEL (the forward calculation lists them in the order of the wavelength dictionary)
+        order = [str(c) for c in data.illumination.values]
+        f = f.sel(illumination=order).transpose(*data.dims)
+        sig = xr.DataArray([nz[c] for c in order], dims="illumination", coords={"illumination": order})
         sig = sig.broadcast_like(data).transpose(*data.dims)
+        if [str(c) for c in sig.illumination.values] != order or [str(c) for c in f.illumination.values] != order:
+            raise RuntimeError("harness: channel alignment of the reference failed")
         ds = [float(x) for x in data.values.ravel()]
         fs = [float(x) for x in f.values.ravel()]
         ss = [float(x) for x in sig.values.ravel()]
@@ -1015,6 +1075,7 @@ def run(ctx):
     boot.boot()
     guarded(ctx, "fixed", stage_fixed, ctx)
     guarded(ctx, "generated", stage_generated, ctx)
+    guarded(ctx, "buffer", stage_buffer, ctx)
     guarded(ctx, "default_calc", stage_default_calc, ctx)
     guarded(ctx, "channels", stage_channels, ctx)
     total = ctx.hist.get("model:exact:single", 0) + ctx.hist.get("model:exact:cluster", 0) + ctx.hist.get("model:alpha:single", 0)
